@@ -264,6 +264,35 @@ class G:
             out += self.r.pick(["\n", "\n  ", "; ", "\n\n", "\n// c\n", " /* c */\n"]) + s
         return out
 
+    def table_call(self):
+        fn = self.r.pick(["table", "grid"])
+        cols = self.r.pick(["2", "3", "(1fr, 2fr)", "(auto, auto, auto)", "1", "0x2"])
+        named = ["columns: " + cols] + [self.r.pick(["stroke: none", "gutter: 1em", "align: center"]) for _ in range(self.r.below(2))]
+        cells = []
+        for _ in range(self.r.below(8)):
+            r = self.r.below(12)
+            if r < 7:
+                cells.append(self.r.pick(["[a]", "[b]", "[c]", "[long cell text]", "1", '"s"', "[]"]))
+            elif r < 9:
+                cells.append(fn + "." + self.r.pick(["header", "footer"]) + "(" + self.r.pick(["[h]", "[h1], [h2]", ""]) + ")")
+            elif r < 10:
+                cells.append(fn + "." + self.r.pick(["cell", "hline", "vline"]) + "()")
+            elif r < 11:
+                cells.append("..rest")
+            else:
+                cells.append(self.r.pick(["inset: 2pt", "fill: red"]))
+        args = named + cells
+        if self.r.chance(1, 6):
+            self.r_shuffle(args)
+        sep = self.r.pick([", ", ",\n  ", ", ", " , "])
+        trail = self.r.pick(["", ",", ", // c\n"]) if args else ""
+        return fn + "(" + self.r.pick(["", "\n  ", " "]) + sep.join(args) + trail + self.r.pick(["", "\n"]) + ")"
+
+    def r_shuffle(self, xs):
+        for i in range(len(xs) - 1, 0, -1):
+            j = self.r.below(i + 1)
+            xs[i], xs[j] = xs[j], xs[i]
+
     def embedded(self):
         r = self.r.below(6)
         if r < 2:
@@ -277,8 +306,10 @@ def generate(rng, n):
     out = []
     for i in range(n):
         g = G(rng)
-        k = i % 6
-        if k == 0:
+        k = i % 7
+        if k == 6:
+            out.append("#" + g.table_call() + "\n")
+        elif k == 0:
             out.append(g.markup_body(4))
         elif k == 1:
             out.append("#" + g.statement() + "\n")
